@@ -39,7 +39,7 @@ mod verif_local_map {
         assert!(drops(1) == 1 && drops(2) == 1 && drops(3) == 1);
     }
 
-    // @h name=localmap_fww_take tier=quick cap=1 timeout=1200 props=C01,C02,C13
+    // @h name=localmap_fww_take tier=quick cap=1 timeout=1200 props=C02,C01
     #[kani::proof]
     #[kani::unwind(4)]
     fn localmap_fww_take() {
